@@ -1028,7 +1028,9 @@ impl<'p> World<'p> {
         let op = format!("wrap-{}-{}", wk.name(), krec.kind.name());
         let iv = self.plan.iv.clone();
         if let Some(cost) = if wk == WrapKind::Pw { pw_cost(text) } else { None } {
-            if cost.mem > 1100 * 1024 * 1024 || cost.time > 12 || cost.iter > 5_000_000 {
+            // costs too high to recompute are skipped - except memory sizes no Argon2 implementation can
+            // be asked for at all (more than 2^32-1 KiB): the reference refuses those at once
+            if (cost.mem > 1100 * 1024 * 1024 && !cost.beyond_argon2()) || cost.time > 12 || cost.iter > 5_000_000 {
                 return;
             }
             // a blob written with parameters outside the KDF's domain has no specified value
@@ -1547,7 +1549,7 @@ impl<'p> World<'p> {
         // a blob read back exactly as an honest node stored it is always executed
         if wk == WrapKind::Pw && authentic.is_none() {
             if let Some(cost) = pw_cost(&text) {
-                if !cost.within_budget() {
+                if !cost.within_budget() && !cost.beyond_argon2() {
                     self.stats.bump("skipped:cost-budget");
                     self.obs("skip cost-budget");
                     return;
@@ -1919,7 +1921,7 @@ pub fn params_valid(bk: Bk, p: &PwParams) -> bool {
         (1 | 3, PwParams::Iter(i)) => *i >= 1,
         (2 | 4, PwParams::Argon(m, t, par)) => {
             // argon2 minimums: m >= 8*p KiB, t >= 1; libsodium additionally needs p == 1 and m >= 8 KiB
-            *t >= 1 && *par >= 1 && m % 1024 == 0 && *m / 1024 >= 8 * (*par as u64) && (bk != Bk::V4Na || *par == 1)
+            *t >= 1 && *par >= 1 && m % 1024 == 0 && *m / 1024 >= 8 * (*par as u64) && *m / 1024 <= u32::MAX as u64 && (bk != Bk::V4Na || *par == 1)
         }
         _ => false,
     }
@@ -1933,6 +1935,11 @@ pub struct PwCost {
 }
 
 impl PwCost {
+    /// a memory size that cannot be expressed in Argon2's 32-bit KiB parameter: every implementation
+    /// rejects it without allocating anything, so executing such a blob is cheap and safe
+    pub fn beyond_argon2(&self) -> bool {
+        self.iter == 0 && self.mem / 1024 > u32::MAX as u64 && self.time <= 3 && self.para <= 4
+    }
     pub fn within_budget(&self) -> bool {
         self.mem <= 64 * 1024 * 1024 && self.time <= 3 && self.iter <= 100_000 && self.para <= 4
     }
